@@ -157,7 +157,8 @@ ATRound(S, pid, pv, prop, ord, delayedByAlg) ==
         S1 == [S0 EXCEPT !.obs[o].remaining = rem,
                          !.sch.status = IF flagged # {} \/ delayedByAlg THEN "DELAYED" ELSE @,
                          !.sch.doff = @ + SumFunction([k \in flagged |-> S0.tasks[Task(o, k)].doff]),
-                         !.procs[pid].left = @ + 1]
+                         !.procs[pid].left = @ + 1,
+                         !.procs[pid].sched = prop]   \* `schedule` is rebound to what the algorithm returned
         S2 == ApplyProv(S1, o, pv)
         S3 == IF rem = {} /\ cfg.alg \in {"batch", "queue"} THEN Release(S2, o) ELSE S2
     IN IF rem = {} /\ DOMAIN prop = {}
